@@ -59,18 +59,31 @@ func (val *RawXMLValue) UnmarshalXML(d *xml.Decoder, start xml.StartElement) err
 
 // MarshalXML implements xml.Marshaler.
 func (val *RawXMLValue) MarshalXML(e *xml.Encoder, start xml.StartElement) error {
+	return val.marshalXML(e, "")
+}
+
+// marshalXML encodes the value. defaultSpace is the default namespace the
+// encoder has declared on the enclosing element.
+func (val *RawXMLValue) marshalXML(e *xml.Encoder, defaultSpace string) error {
 	if val.out != nil {
 		return e.Encode(val.out)
 	}
 
 	switch tok := val.tok.(type) {
 	case xml.StartElement:
-		if err := e.EncodeToken(tok); err != nil {
+		start := tok
+		if tok.Name.Space == "" && defaultSpace != "" {
+			// encoding/xml declares the namespace of an element as the
+			// default namespace but never undeclares it: without this an
+			// element without namespace ends up in the enclosing one
+			start = tok.Copy()
+			start.Attr = append(start.Attr, xml.Attr{Name: xml.Name{Local: "xmlns"}})
+		}
+		if err := e.EncodeToken(start); err != nil {
 			return err
 		}
 		for _, child := range val.children {
-			// TODO: find a sensible value for the start argument?
-			if err := child.MarshalXML(e, xml.StartElement{}); err != nil {
+			if err := child.marshalXML(e, tok.Name.Space); err != nil {
 				return err
 			}
 		}
